@@ -858,7 +858,7 @@ struct W1
         report ("C15", "range.protocol", std::string (cx.rl.first_error) + " [" + it_name (cx.it_kind) + "]");
       else if (it_is_single_pass (cx.it_kind))
       {
-        for (int k = 0; k < cx.range_len && k < 64; ++k)
+        for (int k = 0; k < cx.range_len && k < RangeLog::RL_MAX; ++k)
           if (cx.rl.deref[k] != 1 || cx.rl.inc[k] != 1)
           {
             report ("C15", "range.single-pass-count",
@@ -1400,7 +1400,7 @@ struct W1
             if (opt.fault_kinds == 1 && ! is_alloc)
               continue;
             Op f = op;
-            f.f1 = static_cast<short> (k);
+            f.f1 = k;
             TrialResult r1 = run_trial (cur.hist, f, cur.size, cur.cap, r0.kinds[k]);
             if (harness_error) return;
             if (r1.skipped) continue;
@@ -1423,7 +1423,7 @@ struct W1
               if (opt.fault_kinds == 1 && r1.kinds[k2] != FK_ALLOC)
                 continue;
               Op g = f;
-              g.f2 = static_cast<short> (k2);
+              g.f2 = k2;
               TrialResult r2 = run_trial (cur.hist, g, cur.size, cur.cap, r0.kinds[k]);
               if (harness_error) return;
               if (r2.skipped) continue;
